@@ -82,6 +82,11 @@ static void check_complete(const FieldOperator& F, const RStr& op) {
             if (ref_apply(op, ket, bra, sg)) { target = (int)m.S->getBlockNumber((QuantumState)bra); break; }
         }
         check((int)F.getLeftIndex(BlockNumber(R)) == target, "operator has a part for every block it does not annihilate");
+        if (target >= 0) {      // the part registered for this block must be built on the eigen-data of exactly these two blocks
+            FieldOperatorPart& pp = F.getPartFromRightIndex(BlockNumber(R));
+            check((int)pp.getRightIndex() == R && (int)pp.getLeftIndex() == target, "the part listed for a block pair is built from the Hamiltonian parts of that pair");
+            if (target != R) reach("block_changing_part");
+        }
     }
 }
 
